@@ -3,7 +3,9 @@
 # ASAN_OPTIONS: the library code under test is pure arithmetic (no heap), so the harness does not need allocation stack
 # traces or a large quarantine; with the defaults every worker grows by ~20 kB per case (rapidcheck's deep, ever-different
 # allocation stacks fill ASan's stack depot) and a thorough run was OOM-killed at 2.2 GB per worker.
-rc_target("c16_math", flavour="asan", cxxflags=["-fsanitize=integer-divide-by-zero"],
+# c16_asm_consts.c: the inline-assembly variant with literal operands as gcc compiles it (register sharing between operands
+# that hold the same constant is a gcc matter; clang and run-time operands do not show it)
+rc_target("c16_math", flavour="asan", cxxflags=["-fsanitize=integer-divide-by-zero"], gcc_harness_objects=["harness/c16_asm_consts.c"],
           env={"ASAN_OPTIONS": "detect_leaks=0:abort_on_error=1:allocator_may_return_null=1:detect_stack_use_after_return=0:"
                                "handle_abort=0:malloc_context_size=0:quarantine_size_mb=16"})
 plan("C16", [T("c16_math", 20000, 200000)], min_nt=14000,
